@@ -8,6 +8,7 @@ import PyGqlModel.PrintString
 import PyGqlModel.Spec.Grammar
 import PyGqlModel.Spec.Lexical
 import PyGqlModel.Lemmas.LexChars
+import PyGqlModel.Lemmas.LexRange
 
 namespace PyGql.PrintLex
 open PyGql PyGql.Lex PyGql.Spec PyGql.PrintString
@@ -196,7 +197,10 @@ theorem readStringBody_jsonEscape (n : Nat) (v rest : Text) :
     split
     · rename_i h; subst h; rw [readStringBody.eq_def]; simp [q7, ih]
     split
-    · rename_i h; rw [readStringBody.eq_def]; simp [q8, hex_low c h, ih]
+    · rename_i h
+      have hh : isHighSurrogate c = false := by simp [isHighSurrogate]; omega
+      simp only [List.cons_append, List.nil_append]
+      rw [readStringBody_unicode_single n _ _ _ _ c _ (hex_low c h) hh]; simp [ih]
     · rename_i h1 h2 h3 h4 h5 h6 h7 h8
       have hp : isPrintable c = true := by simp [isPrintable]; omega
       rw [readStringBody.eq_def]
